@@ -5,12 +5,13 @@ import os,sys,json,subprocess,shutil,re,concurrent.futures
 EXTRA={'C01':['C04'],'C02':['C04','C09'],'C04':['C01','C02'],'C09':['C04','C07'],'C07':['C10'],'C10':['C07'],'C12':['C11'],'C11':['C12'],'C13':['C14'],'C08':['C07','C16'],'C16':['C08'],'C18':['C05'],'C05':['C03'],'C03':['C02'],'C15':['C16'],'C06':[],'C14':['C13'],'C17':[]}
 stored='--stored' in sys.argv
 round2='--round2' in sys.argv
+round3='--round3' in sys.argv
 flt=[a for a in sys.argv[1:] if not a.startswith('--')]
 jobs=[]
-base='/verif/seeded' if stored else ('/tmp/seed2-out' if round2 else '/tmp/seed-out')
+base='/verif/seeded' if stored else ('/tmp/seed3-out' if round3 else '/tmp/seed2-out' if round2 else '/tmp/seed-out')
 for d in sorted(os.listdir(base)):
     if stored:
-        m=re.match(r'(C\d\d)-([abcd])$',d)
+        m=re.match(r'(C\d\d)-([abcdef])$',d)
         if not m: continue
         pid,x=m.groups(); path=os.path.join(base,d)
         jobs.append((pid,x,path))
@@ -34,7 +35,7 @@ with concurrent.futures.ThreadPoolExecutor(3) as ex:
         confirmed=bool(m) and m.group(1)=='pass' and m.group(2)=='FAIL' and m.group(3)=='pass'
         caught=re.findall(r'CAUGHT by (C\d\d): *(.*)',out)
         missed=re.findall(r'MISSED by (C\d\d)',out)
-        dst='/verif/seeded/%s-%s'%(pid,({'a':'c','b':'d'}[x] if round2 else x))
+        dst='/verif/seeded/%s-%s'%(pid,({'a':'e','b':'f'}[x] if round3 else {'a':'c','b':'d'}[x] if round2 else x))
         if not stored:
             if not confirmed:
                 print('NOT CONFIRMED - not stored'); continue
